@@ -17,8 +17,12 @@ transaction, and every Go map enumeration order (`enum`, `penum`, `sord`); the `
 * `reset_removes_block_txs`, `stopSync_removes_block_txs`.
 * `after_reset_no_stale`, `no_stale_preserved`, `after_reset_no_stale_run` — outside the validation sessions no consumed
   nonce / past epoch remains.
-* `exec_consecutive` — after a full reset every executable queue is gap-free and continues the committed nonce,
-  for histories whose views follow the blocks (`Consistent`).
+* `exec_consecutive` — after a full reset (and through later submissions) every executable queue is gap-free, continues
+  the committed nonce and lies in the current epoch, for histories whose views follow the chain (`Consistent`:
+  views move forward, a delivered block's transactions are consumed in the next view); `jinv_run` is the invariant
+  behind it (gaps of a queue only at or below the committed nonce) and holds inside the sessions too.
+* `removed_by_nonce_witness`, `sync_block_txs_remain_witness` — two behaviours of the code the statements above are
+  precise about ("Tx removed by nonce"; blocks applied while syncing reach the pool only at `StopSync`).
 -/
 namespace IdenaModel.Mempool
 
@@ -669,5 +673,15 @@ example :
   refine ⟨by simp [Consistent], ⟨by decide, fun _ s => ?_⟩, fun s => by simp [view], by decide, by decide, by decide⟩
   simp only [View.eff, view]
   by_cases h : s = 1 <;> simp [h]
+
+/-- Scope note (not a theorem about resets): while the node is syncing, applied blocks do not reach the pool
+(`blockchain.go:465`); `StopSync` delivers only the head block.  If it happens inside the validation sessions the
+transactions of the earlier blocks stay in the pool (they are consumed, so `build_ok` never offers them) until the first
+reset outside the sessions (`after_reset_no_stale`). -/
+theorem sync_block_txs_remain_witness :
+    let st := run cfg ⟨view 3 0, Pool.empty⟩
+      [.addExt t1 true, .addExt t2 true, .startSync, .setView (view 3 1), .stopSync [] (view 3 1) [1] ident]
+    t1 ∈ st.pool.all ∧ Stale st.view t1 ∧ build cfg st.view st.pool.exec = some [t2] ∧
+    (step cfg st (.reset [] (view 0 1) [1] ident)).pool.all = [t2] := by decide
 
 end IdenaModel.Mempool
